@@ -50,3 +50,24 @@ package vgirpc
 //@ func applyClaimRedaction
 //@   property C38
 //@   at call RedactClaims assert [default] arg0 == claims && p == nil
+
+// The egress figure: the counting writer hands the underlying writer exactly the bytes it was
+// given and adds to the request's response_bytes exactly what that writer reports having
+// accepted (not what it was asked to write); flush stamps every deferred record with the
+// total it read from that counter, and emits each record it stamped.
+//
+//@ func (*countingResponseWriter).Write
+//@   property C38
+//@   pathvar accepted int
+//@   pathflag written
+//@   at call http.ResponseWriter.Write assert [delegates] arg1 == b
+//@   at call http.ResponseWriter.Write setflag accepted result0
+//@   at call http.ResponseWriter.Write mark written
+//@   at call (*atomic.Int64).Add assert [countsaccepted] written && arg1 == accepted
+//@   ensures [local_sameresult] written && result0 == accepted
+//
+//@ func (*egressRecorder).flush
+//@   property C38
+//@   pathvar total int64
+//@   at call (*atomic.Int64).Load setflag total result
+//@   at call (*AccessLogHook).emit assert [stamped] has(p.record, "response_bytes") && p.record["response_bytes"] == iface(total) && arg0 == p.hook && arg1 == p.record
